@@ -12,6 +12,12 @@ REPO = os.environ.get("VERIF_REPO", "/repo")
 RX = re.compile(r"^  ((?:R|BUILD|ANCHOR|INTERNAL|SELFTEST)[\w.\-]*:.*?): ", re.M)
 
 
+import queue
+SLOTS = queue.Queue()
+for _i in range(0, 8):        # slot 0 = the shared default target directory; 1.. = private ones (cold on first use)
+    SLOTS.put(_i)
+
+
 def sh(cmd, cwd=None, env=None):
     return subprocess.run(cmd, cwd=cwd, shell=True, stdout=subprocess.PIPE, stderr=subprocess.STDOUT, text=True, env=env)
 
@@ -28,10 +34,15 @@ def with_patch(patch, props):
             if sh("git apply %s" % patch, scratch).returncode != 0:
                 return False, {}
         env = dict(os.environ, VERIF_EVIDENCE_DIR=os.path.join(scratch, "_evidence"), VERIF_REPORT_DIR=os.path.join(scratch, "_reports"))
+        slot = SLOTS.get()
+        if slot:
+            env["VERIF_TARGET_SUFFIX"] = "-w%d" % slot
         out = {}
         for p in props:
             c = sh("%s %s %s --tier quick --repo %s --no-mutants" % (sys.executable, os.path.join(VERIF, "check"), p, scratch), VERIF, env)
             out[p] = (c.returncode, [m.group(1)[:200] for m in RX.finditer(c.stdout)])
         return True, out
     finally:
+        if "slot" in dir():
+            SLOTS.put(slot)
         shutil.rmtree(scratch, ignore_errors=True)
